@@ -267,11 +267,24 @@ Fixpoint new_rows (last : Z) (t : node) : list (nkey2 * node_row) :=
       ++ new_rows last l ++ new_rows last r
   end.
 
-(** saveBranches + SaveRoot at checkpoint [v]; orphan rows tagged [at] *)
+(** saveBranches + SaveRoot at checkpoint [v]; orphan rows tagged [at].
+
+    sqlite_batch.go: [saveBranches] does everything -- the branch rows AND the orphan rows of
+    [tree.branchOrphans] -- only [if b.isCheckpoint()], and [isCheckpoint()] is
+    [len(b.tree.branches) > 0].  [deepHash] at a checkpoint appends every branch it visits to
+    [tree.branches], so the list is non-empty exactly when the ROOT IS A BRANCH.  At a
+    checkpoint of the empty tree or of a single-leaf tree no orphan row is written, and
+    [SaveVersion] still executes [tree.branchOrphans = nil] ([os_save]): the pending orphans
+    are lost (their branch rows are never deleted: a storage leak, see
+    [prune_exact_refuted] in V2OrphansFacts2.v).  The root row is written and the checkpoint
+    is added to the range in every case. *)
+Definition root_is_branch (root : option node) : bool :=
+  match root with Some (Inner _ _ _ _ _ _) => true | _ => false end.
+
 Definition checkpoint_write_at (at_ : Z) (st : ostore) (v : Z) (root : option node)
            (pending : list nkey2) : ostore :=
   OStore (branches st ++ match root with Some t => new_rows (ckpt_last (ckpts st)) t | None => [] end)
-         (borphans st ++ map (fun k => (k, at_)) pending)
+         (borphans st ++ if root_is_branch root then map (fun k => (k, at_)) pending else [])
          (roots st ++ [(v, rootrow_of root, true)])
          (ckpts st ++ [v]).
 
